@@ -376,6 +376,29 @@ func (e *Exec) ccall(st *State, x *ast.CallExpr, env *cenv) Val {
 		e.fail(x.Pos(), "contract: unknown function %q", id.Name)
 	}
 	if sel, ok := x.Fun.(*ast.SelectorExpr); ok {
+		// pkg.Func(...): a library function, used through its model / as a pure function
+		if id, ok := sel.X.(*ast.Ident); ok {
+			if _, local := e.tryResolve(st, env, id.Name); !local {
+				pkg := e.pkgTypes(env)
+				for _, imp := range pkg.Imports() {
+					if imp.Name() != id.Name {
+						continue
+					}
+					if fn, ok := imp.Scope().Lookup(sel.Sel.Name).(*types.Func); ok {
+						sig := fn.Type().(*types.Signature)
+						var args []Val
+						for i := range x.Args {
+							a := arg(i)
+							if i < sig.Params().Len() {
+								a = e.convertTo(st, a, sig.Params().At(i).Type())
+							}
+							args = append(args, a)
+						}
+						return e.callFunc(st, fn, nil, args, nil)
+					}
+				}
+			}
+		}
 		// method call on a value: executed through the real method (by contract or inlined)
 		recv := e.cev(st, sel.X, env)
 		if recv.GT == nil {
